@@ -1969,8 +1969,21 @@ fn find_nsec_covering_record<'a>(
     test_name: &Name,
     nsecs: &[(&'a Name, &'a NSEC)],
 ) -> Option<(&'a Name, &'a NSEC)> {
+    /// DNAME (RFC 6672), which has no `RecordType` variant of its own
+    const DNAME: RecordType = RecordType::Unknown(39);
+
     nsecs.iter().copied().find(|(nsec_name, nsec_data)| {
         let next_domain_name = nsec_data.next_domain_name();
+
+        // RFC 6840 4.1: an NSEC from the parent side of a zone cut (NS set, SOA clear) or at the
+        // owner of a DNAME must not be used to assume the non-existence of names below its owner.
+        let types = nsec_data.type_set();
+        let silent_below_owner = (types.contains(RecordType::NS)
+            && !types.contains(RecordType::SOA))
+            || types.contains(DNAME);
+        if silent_below_owner && nsec_name.zone_of(test_name) {
+            return false;
+        }
 
         test_name > nsec_name
             && (test_name < next_domain_name || Some(next_domain_name) == soa_name)
